@@ -62,7 +62,7 @@ def rows (file : String) (generic : Bool) (m : Method) : List Row :=
 
 def expected : List Row :=
   (Method.all.map (rows "src/primitive.rs" false)).flatten ++
-  [ ("src/chain.rs", "nnchain_with", "b..", true, ["if dis[[a, i]] < min { min = dis[[a, i]]; b = i; }"]),
+  [ ("src/chain.rs", "nnchain_with", "b..", true, ["if dis[[a, x]] < min { min = dis[[a, x]]; b = x; }"]),
     ("src/chain.rs", "nnchain_with", "..b", false, ["if dis[[x, b]] < min { min = dis[[x, b]]; a = x; }"]),
     ("src/chain.rs", "nnchain_with", "b..", true, ["if dis[[b, x]] < min { min = dis[[b, x]]; a = x; }"]) ] ++
   ((MethodChain.all.map MethodChain.intoMethod).map (rows "src/chain.rs" false)).flatten ++
